@@ -7,6 +7,7 @@
 -/
 import GormModel.Model.WriteSet
 import GormModel.Lemmas.WriteSet
+import GormModel.Gen.WriteGuards
 namespace Gorm
 open Gorm.WriteSet
 
@@ -654,6 +655,45 @@ example : assignmentsOfMapO none ["name".toList] [] false [("age".toList, false)
     assignmentsOfMapO none [] [] true [("age".toList, false), ("name".toList, true)] = ["age".toList, "name".toList] ∧
     createColumnsMapO none ["name".toList] [] ["age".toList, "name".toList] = ["name".toList] ∧
     (selectAndOmitO none [star] [] false true).2 = true := by decide
+
+/-! ### regenerated facts (extract/gen_c10.go → Gen/WriteGuards.lean): the code still has the shape the model transcribes -/
+
+/-- `Statement.SelectAndOmitColumns` has ONE exit, which computes `restricted` as `!notRestricted && len(Selects) > 0`
+    (`selectAndOmit(O)`'s last line); `notRestricted` starts `false` and is only written by the `*` arm; processColumn
+    tests `stmt.Schema == nil` FIRST (`processColumnO`) and has the six arms of `resolve`; the permission loop is the
+    only other place looking at the schema -/
+theorem C10_gen_sao_shape :
+    Gen.WriteGuards.saoReturns = ["results, !notRestricted && len(stmt.Selects) > 0"] ∧
+    Gen.WriteGuards.saoArms = ["stmt.Schema == nil", "column == \"*\"", "column == clause.Associations",
+      "field := stmt.Schema.LookUpField(column); field != nil && field.DBName != \"\"",
+      "table, col := matchName(column); col != \"\" && (table == stmt.Table || table == \"\")", "else"] ∧
+    Gen.WriteGuards.saoFlagWrites = [("", "notRestricted := false"), ("column == \"*\"", "notRestricted = result")] ∧
+    Gen.WriteGuards.saoSchemaGuards = ["stmt.Schema == nil", "stmt.Schema != nil"] := by decide
+
+/-- the admission forms the model transcribes: `allowed` · the map branch's auto-update-time test (`lookup ≠ some false`) ·
+    `structWrites`' guard · `createWrites` · `createWritesDefault` (struct) -/
+def admissionForms : List String := [
+  "(ok && v) || (!ok && !restricted)",
+  "(ok && v) || !ok",
+  "(ok && v) || (!ok && (!restricted || (!stmt.SkipHooks && field.AutoUpdateTime > 0)))",
+  "(ok && v) || (!ok && (!restricted || field.AutoCreateTime > 0 || field.AutoUpdateTime > 0))",
+  "(ok && v) || (!ok && !restricted) && field.DefaultValueInterface == nil"]
+
+/-- every `if v, ok := selectColumns[…]; cond` of the write path (ConvertToAssignments, ConvertToCreateValues, the two
+    map-create helpers) admits a column by one of these forms, site by site as the model functions have them; and each
+    path asks `SelectAndOmitColumns` with ITS (requireCreate, requireUpdate) pair -/
+theorem C10_gen_admission :
+    (∀ t ∈ Gen.WriteGuards.admissionTests, t.2.2 ∈ admissionForms) ∧
+    Gen.WriteGuards.admissionTests.map (fun t => (t.1, t.2.2)) = [
+      ("ConvertToCreateValues", admissionForms[3]), ("ConvertToCreateValues", admissionForms[0]),
+      ("ConvertToCreateValues", admissionForms[4]), ("ConvertToCreateValues", admissionForms[0]),
+      ("ConvertMapToValuesForCreate", admissionForms[0]), ("ConvertSliceOfMapToValuesForCreate", admissionForms[0]),
+      ("ConvertToAssignments", admissionForms[0]), ("ConvertToAssignments", admissionForms[0]),
+      ("ConvertToAssignments", admissionForms[0]), ("ConvertToAssignments", admissionForms[1]),
+      ("ConvertToAssignments", admissionForms[2])] ∧
+    Gen.WriteGuards.saoCallers = [("ConvertToCreateValues", "true, false"), ("ConvertToCreateValues", "true, true"),
+      ("ConvertMapToValuesForCreate", "true, false"), ("ConvertSliceOfMapToValuesForCreate", "true, false"),
+      ("ConvertToAssignments", "false, true")] := by decide
 
 /-! ### non-vacuity and concrete instances (kernel-evaluated) -/
 
